@@ -2,7 +2,11 @@
 use crate::fw::Rng;
 use crate::gen::tok;
 
-pub const NON_ASCII: [&str; 11] = ["é", "€", "😀", "\u{2028}", "ß", "日本", "\u{feff}", "\u{a0}", "\u{85}", "\u{200b}", "\u{0}"];
+pub const NON_ASCII: [&str; 19] = [
+    "é", "€", "😀", "\u{2028}", "ß", "日本", "\u{feff}", "\u{a0}", "\u{85}", "\u{200b}", "\u{0}",
+    // edges of the UTF-8 / UTF-16 length classes
+    "\u{7ff}", "\u{800}", "\u{fff}", "\u{d7ff}", "\u{e000}", "\u{ffff}", "\u{10000}", "\u{10ffff}",
+];
 pub const UNTERMINATED: [&str; 7] = ["\"", "[{", "/*", "#ifdef X\n", "#else\n", "#ifndef Y", "\"a\\"];
 
 /// Applies 1..=k token-level edits (delete / insert / duplicate / transpose / replace).
